@@ -31,7 +31,7 @@ for d in sorted(os.listdir(V + "/seeded")):
         "seed": d,
         "property": d[:3],
         "property_title": props[d[:3]]["title"],
-        "author": "independent sub-agent given only the property text and a scratch worktree (round %s)" % ("1" if int(d[-1]) <= 2 else "2"),
+        "author": "independent sub-agent given only the property text and a scratch worktree (round %s)" % ("1" if int(d[-1]) <= 2 else ("2" if int(d[-1]) <= 4 else "3")),
         "title": title,
         "patch_files": files,
         "what_it_needs_to_manifest": needs,
